@@ -199,6 +199,7 @@ pub struct Report {
     pub violations_dropped: u64,
     pub not_exhaustive: bool,
     pub state_cap_hit: bool,
+    pub sample_ticks: u64,
 }
 
 pub const MAX_KEPT_VIOLATIONS: usize = 8;
@@ -229,23 +230,24 @@ impl Report {
             self.outcomes.insert(h);
         }
     }
-    /// Should the execution numbered `self.evaluations` (1-based, call after incrementing) be sampled?
-    pub fn want_sample(&self) -> bool {
-        let n = self.evaluations;
+    /// Sampling decision: true for the 1st, 2nd, 5th, 10th, 20th, 50th, 100th, ... opportunity
+    /// (an internal counter of calls, so engines may ask at any granularity).
+    pub fn want_sample(&mut self) -> bool {
+        self.sample_ticks += 1;
         if self.samples.len() >= MAX_SAMPLES {
             return false;
         }
+        let n = self.sample_ticks;
         let mut p = 1u64;
-        while p <= n {
-            if p == n {
+        loop {
+            if n == p || n == 2 * p || n == 5 * p {
                 return true;
             }
-            p = p.saturating_mul(10);
-            if p == u64::MAX {
-                break;
+            if p > n / 10 + 1 {
+                return false;
             }
+            p = p.saturating_mul(10);
         }
-        false
     }
     pub fn sample(&mut self, text: String) {
         if self.samples.len() < MAX_SAMPLES + 4 {
